@@ -37,6 +37,11 @@ class A(Adapter):
                    generator="very-easy"),
             Config("sudoku-dummy", lambda: Sudoku(generator=DummyGenerator()), {}, generator="dummy",
                    constant_generator=True),
+            # user-supplied databases in other integer dtypes (the documented contract is only "0 = empty, 1-9 = filled")
+            Config("sudoku-db-uint8", lambda: Sudoku(generator=DatabaseGenerator(database=np.asarray(db("very-easy"))[:64].astype(np.uint8))), {},
+                   generator="very-easy-uint8", only={"C10", "C06", "C04"}),
+            Config("sudoku-db-int32", lambda: Sudoku(generator=DatabaseGenerator(database=np.asarray(db("very-easy"))[64:128].astype(np.int32))), {},
+                   generator="very-easy-int32", only={"C10"}),
         ]
         return out
 
